@@ -179,7 +179,20 @@ def parse_vc(path):
             elif s.startswith("@@") or (cur is None and (s == "" or s.startswith("//"))):
                 continue
             elif cur is not None and mode is not None:
-                buf.append(split_label(line))
+                t, lab = split_label(line)
+                buf.append((t, lab))
+                if lab:
+                    # a label at the end of a multi-line clause covers the clause's earlier lines
+                    j = len(buf) - 2
+                    while j >= 0:
+                        pt, pl = buf[j]
+                        ps = pt.strip()
+                        tail = " ".join(x[0] for x in buf[j + 1:])
+                        unbalanced = tail.count(")") > tail.count("(")
+                        if pl or ps in ("requires", "ensures", "invariant", "decreases") or ps == "" or ((ps.endswith(",") or ps.endswith("{") or ps.endswith(";")) and not unbalanced):
+                            break
+                        buf[j] = (pt, lab)
+                        j -= 1
             elif s == "":
                 continue
             else:
